@@ -12,7 +12,7 @@ Driver for C11.  A case is a list of declaration lines followed by one command l
 
  harnesses `selmem` / `selcpu` (victim selection and order):
    pod <id> <name> <qosBE> <active> <policy 0..3> <hasSpec> <spec> <hasEff> <eff> <evictLbl> <evictPrio>
-       <hasLbl> <lbl> <hasMetric> <used> <request>
+       <hasLbl> <lbl> <hasMetric> <used = metric*1000> <request> <batchReq>
    selprio <threshold> <byReq> | selbemem | selbecpu
  output: one `info <id> <evictPrio> <prio> <labelPrio> <used> <request>` per selected pod in eviction order
          (pods with equal sort keys are listed by id), then `end`
@@ -55,14 +55,14 @@ def optI (flag v : Int) : Option Int := if flag ≠ 0 then some v else none
 
 def parsePod (xs : List Int) : Option Pod :=
   match xs with
-  | [id, name, be, act, pol, hs, sp, he, ef, el, ep, hl, lb, hm, used, req] =>
+  | [id, name, be, act, pol, hs, sp, he, ef, el, ep, hl, lb, hm, used, req, breq] =>
     let pol? : Option PolicyAnno :=
       if pol = 0 then some .absent else if pol = 1 then some .lists
       else if pol = 2 then some .others else if pol = 3 then some .malformed else none
     pol?.map fun pol =>
       { id := id.toNat, name := name.toNat, qosBE := be ≠ 0, active := act ≠ 0, policy := pol,
         specPrio := optI hs sp, effPrio := optI he ef, evictLbl := el ≠ 0, evictPrio := ep,
-        labelPrio := optI hl lb, hasMetric := hm ≠ 0, used := used, request := req }
+        labelPrio := optI hl lb, hasMetric := hm ≠ 0, used := used, request := req, batchReq := breq }
   | _ => none
 
 def cmpRel (a b : Key × Int) : Bool := a.1.1 < b.1.1 || (a.1.1 = b.1.1 && a.1.2 < b.1.2)
